@@ -262,3 +262,27 @@ prop("C10",
                 "subsequent handshakes are judged, as the property states.",
      technique="hostile-input fault injection on a simulated network with crash attribution (child processes) and liveness probes; checkptr instrumentation",
      assumptions=["go1.26 testing/synctest virtual time"])
+
+prop("C08",
+     level="exploration",
+     exhaustive=True,
+     parts=[{"engine": "tubes_stream", "race": True}],
+     floor={"quick": 5000, "thorough": 100000},
+     child_timeout={"quick": 1200, "thorough": 3400},
+     rule="Two real Muxers over a simulated message connection in synctest bubbles, 1-3 reliable tubes, keyed pseudo-random streams "
+          "in one or both directions (totals 0..1 MiB, write sizes 1, 2, 100, MaxFrameDataLength-1/+0/+1, 70000, 200000, random). "
+          "Seeded fault schedules that heal at a known virtual time: i.i.d. loss 1-60 %, asymmetric and ack-only/data-only loss, "
+          "burst loss, duplication, reordering by delay up to 500 ms, total outages of 0.1 s to 30 min (up to two), combinations. "
+          "Online oracle: every Read returns exactly the next bytes of the peer's stream (foreign bytes are classified against all "
+          "streams of the case); EOF only at the end of the written stream; completeness: every stream fully read within the "
+          "schedule's heal time + 30 virtual minutes. Reassembly core driven directly: every arrival sequence of length <=7 (quick) "
+          "/ <=8 (thorough) over {frame1..frame5, FIN} with duplicates, from 6 starting frame numbers around the 32-bit wrap, "
+          "buffer/closed/ack compared with a set-based model after every step; random long arrival orders with far-out-of-window "
+          "frame numbers. Non-trivial = a bubble whose streams were read and checked to the end, or an enumerated arrival sequence.",
+     level_text="Exploration of seeded, healing fault schedules against the real muxers in virtual time with an online "
+                "prefix-of-stream monitor and a bounded-progress completeness check; exhaustive differential monitoring of the "
+                "reassembly core over the bounded arrival-sequence space.",
+     level_note="Completeness is bounded progress (heal + 30 virtual minutes), not an unbounded eventually; under permanent loss "
+                "only the prefix property is judged. Sequence-number wrap is reached only in the core.",
+     technique="runtime monitoring under message-level fault injection (virtual time) with online stream oracle; bounded-exhaustive differential monitor of the reassembly core; race detector",
+     assumptions=["go1.26 testing/synctest virtual time"])
